@@ -158,27 +158,28 @@ PAIR = re.compile(r"\((\d+),\s*(\d+)\)")
 
 
 def eval_shards(paths):
-    """returns (results: list of (index, code)), errors)"""
-    results, errors = [], []
+    """returns (results: per Eval of the shards, list of (index, code)), errors)"""
+    results, errors = {}, []
     with concurrent.futures.ThreadPoolExecutor(max_workers=16) as ex:
         for path, rc, out, dt in ex.map(run_coqc, paths):
             if rc != 0:
                 errors.append("%s: %s" % (os.path.basename(path), out[-1500:]))
                 continue
             flat = " ".join(out.split())
-            m = re.search(r"=\s*(\[.*?\])\s*:\s*list", flat)
-            if not m:
+            ms = re.findall(r"=\s*(\[.*?\])\s*:\s*list", flat)
+            if not ms:
                 errors.append("%s: unparsable output %s" % (os.path.basename(path), flat[-300:]))
                 continue
-            for a, b in PAIR.findall(m.group(1)):
-                results.append((int(a), int(b)))
+            for k, body in enumerate(ms):
+                for a, b in PAIR.findall(body):
+                    results.setdefault(k, []).append((int(a), int(b)))
     for p in paths:
         for ext in (".vo", ".vok", ".vos", ".glob"):
             try:
                 os.remove(p[:-2] + ext)
             except OSError:
                 pass
-    return sorted(results), errors
+    return {k: sorted(v) for k, v in results.items()}, errors
 
 
 def load_known():
